@@ -92,6 +92,11 @@ _WALK_STEP_FUNCS = (
 def install(seams: Seams, detect_loops_monitor=None):
     """Patch the code under test.  Called inside a forked child, so nothing
     has to be undone."""
+    import sys
+
+    # code under test runs under the interpreter's default recursion limit
+    # (sim/puml_sem.py raises it for the reference model only)
+    sys.setrecursionlimit(1000)
     import tel2puml.events as ev
     import tel2puml.logic_detection as ld
     import tel2puml.pv_to_puml.walk_puml_graph.node as nd
@@ -131,7 +136,15 @@ def install(seams: Seams, detect_loops_monitor=None):
 
         def monitored(graph):
             snap = detect_loops_monitor.before(graph)
-            out = real_dl(graph)
+            try:
+                out = real_dl(graph)
+            except StepBudgetExceeded:
+                raise
+            except BaseException as e:
+                # loop extraction itself failed (e.g. unbounded recursion on
+                # a cycle it did not remove): a C07 outcome, then re-raised
+                detect_loops_monitor.failed(snap, e)
+                raise
             detect_loops_monitor.after(snap, out)
             return out
 
